@@ -95,7 +95,11 @@ func BuildIT(it IT) *cloudprovider.InstanceType {
 		} else {
 			reqs.Add(scheduling.NewRequirement(cloudprovider.ReservationIDLabel, corev1.NodeSelectorOpDoesNotExist))
 		}
-		ofs = append(ofs, &cloudprovider.Offering{Requirements: reqs, Price: float64(o.Price) / 1024.0, Available: o.Available, ReservationCapacity: o.ReservationN})
+		of := &cloudprovider.Offering{Requirements: reqs, Price: float64(o.Price) / 1024.0, Available: o.Available, ReservationCapacity: o.ReservationN}
+		if o.CPUOverride != nil {
+			of.CapacityOverride = corev1.ResourceList{corev1.ResourceCPU: q(*o.CPUOverride)}
+		}
+		ofs = append(ofs, of)
 		if o.Available {
 			zones = append(zones, o.Zone)
 			cts = append(cts, o.CapacityType)
@@ -473,17 +477,32 @@ func (w *World) addNode(n Node, seq *int) error {
 		if err := w.Client.Create(w.Ctx, node); err != nil {
 			return err
 		}
-		if err := w.Cluster.UpdateNode(w.Ctx, node); err != nil {
-			return err
-		}
-		for _, p := range n.Pods {
-			*seq++
-			pod := w.BuildPod(p, n.Name, *seq)
-			if err := w.Client.Create(w.Ctx, pod); err != nil {
+		if w.Scn.PodEventsFirst {
+			// informer race: the pods' events are processed while the node is not tracked yet (NotFound), then the node's
+			for _, p := range n.Pods {
+				*seq++
+				pod := w.BuildPod(p, n.Name, *seq)
+				if err := w.Client.Create(w.Ctx, pod); err != nil {
+					return err
+				}
+				_ = w.Cluster.UpdatePod(w.Ctx, pod)
+			}
+			if err := w.Cluster.UpdateNode(w.Ctx, node); err != nil {
 				return err
 			}
-			if err := w.Cluster.UpdatePod(w.Ctx, pod); err != nil {
+		} else {
+			if err := w.Cluster.UpdateNode(w.Ctx, node); err != nil {
 				return err
+			}
+			for _, p := range n.Pods {
+				*seq++
+				pod := w.BuildPod(p, n.Name, *seq)
+				if err := w.Client.Create(w.Ctx, pod); err != nil {
+					return err
+				}
+				if err := w.Cluster.UpdatePod(w.Ctx, pod); err != nil {
+					return err
+				}
 			}
 		}
 	}
